@@ -72,6 +72,11 @@ def sorted_perm_of(state, v, hint='sorted', reverse=False):
                                          seq_at(r, i) == seq_at(v, p(i))))),
         z3.ForAll([j], z3.Implies(z3.And(0 <= j, j < n),
                                   z3.And(0 <= q(j), q(j) < n, p(q(j)) == j))),
+        # (implied by the two facts above; triggered by an element of v, so that membership
+        # goals about the sorted sequence find their witness)
+        z3.ForAll([j], z3.Implies(z3.And(0 <= j, j < n),
+                                  z3.And(0 <= q(j), q(j) < n, seq_at(r, q(j)) == seq_at(v, j))),
+                  patterns=[seq_at(v, j)]),
         z3.ForAll([i, j], z3.Implies(z3.And(0 <= i, i < j, j < n),
                                      le(seq_at(r, i), seq_at(r, j)))))
     return r
@@ -430,14 +435,17 @@ def unknown_call(ev, state, node, name):
     if not ctx.lenient or ctx.spec_mode:
         raise Unsupported(f"call to {name} (no contract, not a modelled primitive) at line {node.lineno}")
     # evaluate arguments (for their effects on obligations); tracked mutable args are havocked
+    # unless the contract lists the callee as not mutating its arguments (assumed, reported)
     havoc = []
+    pure = set(ctx.contract.ghost.get('pure_calls', ()))
+    is_pure = name in pure or (name or '').split('.')[-1] in pure
     for a in list(node.args) + [k.value for k in node.keywords]:
         try:
             v = ev.eval(state, a)
         except Unsupported:
             continue
         r = ev.eval_ref(state, a)
-        if r is not None and T.is_mutable(read_ref(state, r).ty):
+        if r is not None and T.is_mutable(read_ref(state, r).ty) and not is_pure:
             havoc.append((r, a))
     for r, a in havoc:
         old = read_ref(state, r)
@@ -892,12 +900,16 @@ def s_sorted_by(strict):
 
 def s_bound(ev, state, node):
     nm = node.args[0].value
-    a = state.asg.get(nm)
+    asg = getattr(state, 'final_asg', None) or state.asg
+    a = asg.get(nm)
     return SymVal(T.BOOL, a if a is not None else z3.BoolVal(False))
 
 
 def s_is_none(ev, state, node):
     v = ev.eval(state, node.args[0])
+    if v.ty == T.OPAQUE:
+        from .engine import IS_NONE
+        return SymVal(T.BOOL, IS_NONE(v.term))
     if v.ty == T.NONE:
         return const_bool(True)
     if v.ty[0] == 'opt':
@@ -916,7 +928,24 @@ def s_keys_equal_set(ev, state, node):
     raise Unsupported("keys_equal_set")
 
 
+def s_local(ev, state, node):
+    """local('x'): value of the local x at the exit being specified (arbitrary if unbound)"""
+    nm = node.args[0].value
+    env = getattr(state, 'final_env', None)
+    if env is None or nm not in env:
+        ht = ev.ctx.hint_type(nm)
+        if ht is None:
+            raise Unsupported(f"local({nm!r}) is not bound at this exit")
+        return fresh(ht, 'unbound_' + nm)
+    return read_ref(state, env[nm])
+
+
+def s_truthy(ev, state, node):
+    return SymVal(T.BOOL, truth(ev.eval(state, node.args[0])))
+
+
 SPEC_FUNCS = {
+    'local': s_local, 'truthy': s_truthy,
     'implies': s_implies, 'iff': s_iff, 'old': s_old, 'dupfree': s_dupfree,
     'sorted_strict': s_sorted_by(True), 'sorted_nondecr': s_sorted_by(False),
     'bound': s_bound, 'is_none': s_is_none, 'some': s_some,
